@@ -274,7 +274,8 @@ func (root *Root) addTypes(types ...Type) error {
 	return root.ReplaceRefs()
 }
 
-func (root *Root) addExtends(extends ...*Extend) (err error) {
+func (root *Root) addExtends(extends ...*Extend) (undo []func(), err error) {
+	saved := map[Type]bool{}
 	for _, x := range extends {
 		if err = root.replaceTypeRefs(x.Adds); err != nil {
 			return
@@ -289,16 +290,72 @@ func (root *Root) addExtends(extends ...*Extend) (err error) {
 			cur = root.schema
 		}
 		if cur == nil {
-			return fmt.Errorf("%s can not be extended because it was %w", x.Adds.Name(), ErrNotFound)
+			return undo, fmt.Errorf("%s can not be extended because it was %w", x.Adds.Name(), ErrNotFound)
 		}
 		if reflect.TypeOf(x.Adds) != reflect.TypeOf(cur) {
-			return fmt.Errorf("%w: %s, a %T can not extend a %T", ErrTypeMismatch, x.Adds.Name(), x.Adds, cur)
+			return undo, fmt.Errorf("%w: %s, a %T can not extend a %T", ErrTypeMismatch, x.Adds.Name(), x.Adds, cur)
+		}
+		if !saved[cur] {
+			saved[cur] = true
+			undo = append(undo, saveType(cur))
 		}
 		if err = cur.Extend(x.Adds); err != nil {
 			return
 		}
 	}
-	return nil
+	return undo, nil
+}
+
+// saveType returns a function that puts the parts of a type that can be
+// changed by an extension back to what they are now.
+func saveType(t Type) func() {
+	switch tt := t.(type) {
+	case *Object:
+		fields := tt.fields.dup()
+		interfaces := append([]Type{}, tt.Interfaces...)
+		dirs := append([]*DirectiveUse{}, tt.Dirs...)
+		return func() {
+			tt.fields = fields
+			tt.Interfaces = interfaces
+			tt.Dirs = dirs
+		}
+	case *Schema:
+		return saveType(&tt.Object)
+	case *Interface:
+		fields := tt.fields.dup()
+		dirs := append([]*DirectiveUse{}, tt.Dirs...)
+		return func() {
+			tt.fields = fields
+			tt.Dirs = dirs
+		}
+	case *Input:
+		fields := tt.fields.dup()
+		dirs := append([]*DirectiveUse{}, tt.Dirs...)
+		return func() {
+			tt.fields = fields
+			tt.Dirs = dirs
+		}
+	case *Enum:
+		values := tt.values.dup()
+		dirs := append([]*DirectiveUse{}, tt.Dirs...)
+		return func() {
+			tt.values = values
+			tt.Dirs = dirs
+		}
+	case *Union:
+		members := append([]Type{}, tt.Members...)
+		dirs := append([]*DirectiveUse{}, tt.Dirs...)
+		return func() {
+			tt.Members = members
+			tt.Dirs = dirs
+		}
+	case *stringScalar:
+		dirs := append([]*DirectiveUse{}, tt.Dirs...)
+		return func() {
+			tt.Dirs = dirs
+		}
+	}
+	return func() {}
 }
 
 // GetType returns the type that matches the provided name or nil if none
@@ -335,18 +392,28 @@ func (root *Root) ParseReader(r io.Reader) error {
 	root.types = origTypes.dup()
 	root.dirs = origDirs.dup()
 
+	// Extensions modify the existing types in place. Keep what is needed to
+	// put them back if anything fails after they have been applied.
+	var undo []func()
+
 	types, extends, err := parseSDL(root, r)
 	if err == nil {
 		err = root.addTypes(types...)
 	}
 	if err == nil {
-		err = root.addExtends(extends...)
+		undo, err = root.addExtends(extends...)
 	}
 	if err == nil {
+		if root.schema != nil && root.implicitSchema {
+			undo = append(undo, saveType(root.schema))
+		}
 		root.assureSchema()
 		err = root.validate()
 	}
 	if err != nil {
+		for i := len(undo) - 1; 0 <= i; i-- {
+			undo[i]()
+		}
 		root.types = origTypes
 		root.dirs = origDirs
 		// A schema block in the failed SDL replaced the schema while it was
